@@ -212,6 +212,7 @@ def main():
 
     obligations = []
     known_obls = []
+    bounded_list = []
     discharged = 0
     bounded_obl = 0
     violations = []
@@ -227,11 +228,14 @@ def main():
                 o['status'] = 'known-finding (fails as recorded; not counted)'
                 known_obls.append(o)
                 continue
+            if o.get('bounded'):
+                # a bounded stand-in is never counted as proved; it is listed separately
+                bounded_list.append(o)
+                bounded_obl += 1
+                continue
             obligations.append(o)
             if o['status'] == 'discharged':
                 discharged += 1
-            if o.get('bounded'):
-                bounded_obl += 1
         for f in r['failures']:
             if a.prop not in f['props']:
                 continue
@@ -276,7 +280,7 @@ def main():
         trusted += ['[%s] %s' % (r['unit'], t) for t in r['trusted']]
     trusted += P.get('trusted_base', [])
     samples = []
-    for o in obligations[:12]:
+    for o in (obligations + bounded_list)[:14]:
         samples.append({'obligation': o['name'], 'status': o['status'], 'backend': o.get('backend'),
                         **({'bounded': o['bounded']} if o.get('bounded') else {})})
     cov = {
@@ -288,6 +292,7 @@ def main():
         'explanation': P.get('explanation', ''),
         'obligation_list': obligations,
         'known_finding_obligations': known_obls,
+        'bounded_stand_ins': bounded_list,
         'bounded_obligations': bounded_obl,
         'functions_under_contract': [x for r in results for x in r['extracted']],
         'rewrites_applied': [x for r in results for x in r['rewrites']],
